@@ -54,12 +54,12 @@ def run(tier, seed):
     try:
         mc = core.tlc("MC_NtlmSession", wd=wd, workers=8, coverage=True, overrides=True, timeout=600)
         core.require_clean_mc(mc, "MC_NtlmSession", ("Send", "Tamper"))
-        nsess, maxlen = (160, 64) if tier == "quick" else (1500, 2000)
+        nsess, maxlen = (160, 64) if tier == "quick" else (1500, 1024)
         _, plans = ntlm.gen(wd, 1, nsess, maxlen, seed)
         for k, p in enumerate(plans):
             s2c = [s for s in p["steps"] if s["dir"] == "s2c"]
             for j, s in enumerate(s2c):
-                if s["len"] <= (64 if tier == "quick" else 300):
+                if s["len"] <= (64 if tier == "quick" else 128):
                     s["tamper"] = "bits" if (k + j) % 3 == 0 else "some"
                 else:
                     s["tamper"] = "some"
